@@ -46,7 +46,8 @@ def h_reply_unsat(deduction: bool, k0: bool) -> bool:
     else:
         be = _backend(SugarBackend, "s UNSATISFIABLE\n", [b, i])
         r = be.solve()
-    return r is False
+    # an unsatisfiable reply leaves no stale value from an earlier solve behind
+    return r is False and b.sol is None and i.sol is None
 
 
 def h_reply_deduction(bval: bool, ival: int, list_b: bool, list_i: bool, key_c: bool, cval: bool) -> bool:
